@@ -1672,9 +1672,14 @@ func (ex *Exec) globalCell(g *ssa.Global) *Cell {
 }
 
 // initGlobal runs the slice of the package initializer that computes g.
+// globals whose initialisers are reflection-driven registries; the functions reading them are intercepted
+var skipGlobalInit = map[string]bool{
+	"k8s.io/apimachinery/pkg/api/equality.Semantic": true,
+}
+
 func (ex *Exec) initGlobal(g *ssa.Global, c *Cell) {
 	pkg := g.Pkg
-	if pkg == nil {
+	if pkg == nil || skipGlobalInit[g.String()] {
 		return
 	}
 	ex.eng.buildPkg(pkg)
